@@ -486,8 +486,9 @@ func chanBody(c chanSc) func() string {
 				}
 			})
 		}
-		e := &el.Event{Type: "t", Payload: "x"}
-		e2 := &el.Event{Type: "t", Payload: "y"}
+		// the events carry format tables of 2 and 1 entries (a sink sits behind formatters); the filler has none
+		e := &el.Event{Type: "t", Payload: "x", Formatted: map[string][]byte{"json": []byte("{\"x\":1}\n"), "f1": []byte("x")}}
+		e2 := &el.Event{Type: "t", Payload: "y", Formatted: map[string][]byte{"json": []byte("{\"y\":1}\n")}}
 		var out2 *el.Event
 		var perr2 error
 		var c2, f2 bool
